@@ -37,7 +37,9 @@ TRANSFORMS = [None, 'translate(3,-2)', 'translate(4)', 'scale(2)', 'scale(2,0.5)
               'scale(-1,1)', 'scale(1,-1)',
               # the same operations in other legal spellings (reach the readers as own / sibling-group transforms)
               'translate( 3 , -2 )', 'scale(2 0.5)', 'rotate(30 1 2)', 'matrix(1 .5 -.5 1 3 4)', ' translate(3,-2)  scale(2) ',
-              'rotate(-45)skewX(1e1)', 'translate(1e-1,2E0)', 'translate(0,0)', 'translate(5,0)', 'scale(0.5,1e0)']
+              'rotate(-45)skewX(1e1)', 'translate(1e-1,2E0)', 'translate(0,0)', 'translate(5,0)', 'scale(0.5,1e0)',
+              # legitimate transforms that are NOT the identity, only close to it
+              'scale(1.000004)', 'rotate(0.0004)', 'translate(0.000000004, 0)', 'skewX(0.0005)', 'matrix(1 0 0 1.0000001 0 0)']
 
 LEAVES = {
     'path_lines': ('path', {'d': 'M 1 1 L 5 2 L 4 6 z'}),
@@ -97,9 +99,15 @@ def build_doc(kind, ta, tb, leaves):
     troot = TRANSFORMS[(ti + 2) % 10] if ti % 3 == 0 else None
     base = [troot] if troot else []
     xml = '<?xml version="1.0"?>\n<svg xmlns="%s" width="100" height="100"%s>' % (NS, (' transform="%s"' % troot) if troot else '')
-    xml += leaf(0, base + [], [])
-    xml += g(1, ta) + leaf(1, base + [ta], ['g1']) + g(2, tb) + leaf(2, base + [ta, tb], ['g1', 'g2']) + '</g></g>'
-    xml += g(3, tc) + leaf(3, base + [tc], ['g3']) + '</g>'
+    # elements that are not shapes (text, image, metadata, unknown) may carry transforms of their own: they are
+    # SIBLINGS of the leaves, so nothing of theirs applies to a leaf
+    def other(tagname, k, body=''):
+        t = TRANSFORMS[(ti + 7 + k) % len(TRANSFORMS)] or 'translate(100,40) rotate(-90)'
+        return '<%s transform="%s" x="1" y="1">%s</%s>' % (tagname, t, body, tagname)
+    xml += '<title>doc</title>' + other('text', 0, 'label') + leaf(0, base + [], [])
+    xml += g(1, ta) + other('text', 1, 'first') + leaf(1, base + [ta], ['g1']) + g(2, tb) + other('image', 2) + \
+        leaf(2, base + [ta, tb], ['g1', 'g2']) + '</g></g>'
+    xml += g(3, tc) + other('foreignObject', 3) + other('unknownElement', 4) + leaf(3, base + [tc], ['g3']) + '</g>'
     xml += '</svg>'
     return xml, recs
 
@@ -157,10 +165,14 @@ def path_polylines(p, n=600):
 
 
 def geometry_matches(p, polys, size):
+    from svgpathtools import Line as _Line
     got = path_polylines(p)
     # polylines of 600 chords per curved segment: sagitta <= (L/600)^2/(8 r) stays below this
     # tolerance for the shapes of the alphabet; semantic errors are O(size)
     tol = 5e-4 * size
+    if all(isinstance(s_, _Line) for s_ in p):
+        # straight shapes have no chord error: their vertices must be where the matrices put them
+        tol = 1e-9 * size
     q1 = [z for pl in got for z in (pl[::max(1, len(pl) // 50)] + [pl[-1]])]
     d1 = dist_points_polylines(q1, polys)
     if d1.max() > tol:
